@@ -169,7 +169,8 @@ impl State {
         let tags = val.tags()?;
         let fmt = tags.get(&FMT_TAG_NAME)?;
         let raw = fmt.to_usize().ok()?;
-        Some(FmtFlags::from_raw(raw))
+        // the flags travel as a format width, which must fit 16 bits
+        Some(FmtFlags::from_raw(raw & 0xffff))
     }
 
     pub fn format_cell(&self, val: &Cell) -> Xresult1<String> {
